@@ -91,7 +91,7 @@ M = [
     ('assign-str-longer-keeps-end-marker', S, "            if len(self._s) in self._fmts:\n                self._fmts[len(s)] = self._fmts.pop(len(self._s))",
      "            if len(self._s) in self._fmts and len(self._fmts) > 2:\n                self._fmts[len(s)] = self._fmts.pop(len(self._s))"),
     ('replace-uses-settings-of-char-before', S, "                replace = AnsiString(new, obj.ansi_settings_at(idx))", "                replace = AnsiString(new, obj.ansi_settings_at(max(idx - 1, 0)))"),
-    ('replace-second-match-searches-too-far', S, "            idx = obj._s.find(old, idx + len(new) + (0 if old else 1))", "            idx = obj._s.find(old, idx + len(new) + 1)"),
+    ('replace-second-match-searches-too-far', S, "            idx = obj._s.find(old, idx + len(replace) + (0 if old else 1))", "            idx = obj._s.find(old, idx + len(replace) + 1)"),
     ('partition-uses-rfind', S, "        idx = self._s.find(sep)\n        if idx >= 0:\n            sep_len = len(sep)", "        idx = self._s.rfind(sep)\n        if idx >= 0:\n            sep_len = len(sep)"),
     ('center-left-gets-extra', S, "            left_spaces = math.floor((num) / 2)", "            left_spaces = math.ceil((num) / 2)"),
     ('format-minus-flag-ignored-for-center', S, "        match = re.search(r'^(.?)([+-]?)\\^([0-9]*)$', string_format)\n        if match:\n            # Center\n            num = match.group(3)\n            extend_formatting = (not match.group(2) or match.group(2) == '+')",
